@@ -384,32 +384,30 @@ impl Dec {
             return Some(true);
         }
         // self = a*10^e1, m = b*10^e2 ; need a*10^(e1-e2) divisible by b
-        let a = to_u128(&self.digits)?;
         let b = to_u128(&m.digits)?;
+        if b >= (1u128 << 120) {
+            return None;
+        }
         let d = self.exp - m.exp;
         if d >= 0 {
-            // (a * 10^d) mod b, computed modularly
-            let mut r = a % b;
-            for _ in 0..d.min(100000) {
+            // (a * 10^d) mod b with a of arbitrary length, computed digit by digit
+            let mut r: u128 = 0;
+            for &x in &self.digits {
+                r = (r * 10 + x as u128) % b;
+            }
+            if d > 100000 {
+                return None;
+            }
+            for _ in 0..d {
                 r = (r * 10) % b;
                 if r == 0 {
                     break;
                 }
             }
-            if d > 100000 {
-                return None;
-            }
             Some(r == 0)
         } else {
-            // a / 10^-d must be an integer multiple of b: a divisible by b*10^-d
-            let k = (-d) as u32;
-            if k > 36 {
-                // a has no trailing zeros (normalised) => not divisible by 10^k for k>=1 unless..
-                return Some(false);
-            }
-            let p = 10u128.checked_pow(k)?;
-            let bp = b.checked_mul(p)?;
-            Some(a % bp == 0)
+            // a is normalised (last digit non-zero) so it is not divisible by 10^-d
+            Some(false)
         }
     }
 }
@@ -504,11 +502,15 @@ impl<'a> Validator<'a> {
             _ => return Verdict::Unknown("schema not object".into()),
         };
         let mut unknown: Option<String> = None;
+        let mut inner_reason = String::new();
         macro_rules! sub {
             ($s:expr, $i:expr) => {
                 match self.validate($s, $i) {
                     Verdict::Valid => true,
-                    Verdict::Invalid(_) => false,
+                    Verdict::Invalid(r) => {
+                        inner_reason = r;
+                        false
+                    }
                     Verdict::Unknown(u) => {
                         unknown = Some(u);
                         true
@@ -557,13 +559,14 @@ impl<'a> Validator<'a> {
                 "allOf" => {
                     for s in v.as_array().into_iter().flatten() {
                         if !sub!(s, inst) {
-                            inv!("allOf branch failed");
+                            inv!("allOf branch failed > {}", inner_reason);
                         }
                     }
                 }
                 "anyOf" => {
                     let mut any = false;
                     let mut unk = None;
+                    let mut reasons = vec![];
                     for s in v.as_array().into_iter().flatten() {
                         match self.validate(s, inst) {
                             Verdict::Valid => {
@@ -571,14 +574,14 @@ impl<'a> Validator<'a> {
                                 break;
                             }
                             Verdict::Unknown(u) => unk = Some(u),
-                            _ => {}
+                            Verdict::Invalid(r) => reasons.push(r),
                         }
                     }
                     if !any {
                         if let Some(u) = unk {
                             unknown = Some(u);
                         } else {
-                            inv!("no anyOf branch");
+                            inv!("no anyOf branch > [{}]", reasons.join(" | "));
                         }
                     }
                 }
@@ -631,7 +634,7 @@ impl<'a> Validator<'a> {
                     if let J::Str(s) = inst {
                         match crate::formats::check(v.as_str().unwrap_or(""), s) {
                             Some(true) => {}
-                            Some(false) => inv!("format {v}"),
+                            Some(false) => inv!("format {} :: {}", v.as_str().unwrap_or(""), s),
                             None => unknown = Some(format!("format {v}")),
                         }
                     }
@@ -672,7 +675,7 @@ impl<'a> Validator<'a> {
                     if let J::Arr(a) = inst {
                         for (s, x) in v.as_array().into_iter().flatten().zip(a.iter()) {
                             if !sub!(s, x) {
-                                inv!("prefixItems");
+                                inv!("prefixItems > {}", inner_reason);
                             }
                         }
                     }
@@ -682,7 +685,7 @@ impl<'a> Validator<'a> {
                         let skip = o.get("prefixItems").and_then(|p| p.as_array()).map(|p| p.len()).unwrap_or(0);
                         for x in a.iter().skip(skip) {
                             if !sub!(v, x) {
-                                inv!("items");
+                                inv!("items > {}", inner_reason);
                             }
                         }
                     }
@@ -707,7 +710,7 @@ impl<'a> Validator<'a> {
                             }
                             for x in occ {
                                 if !sub!(ps, x) {
-                                    inv!("property {pk}");
+                                    inv!("property {pk} > {}", inner_reason);
                                 }
                             }
                         }
@@ -722,7 +725,7 @@ impl<'a> Validator<'a> {
                             };
                             for (k2, x) in m {
                                 if re.is_match(k2) && !sub!(ps, x) {
-                                    inv!("patternProperties {pat}");
+                                    inv!("patternProperties {pat} > {}", inner_reason);
                                 }
                             }
                         }
@@ -741,7 +744,7 @@ impl<'a> Validator<'a> {
                                 continue;
                             }
                             if !sub!(v, x) {
-                                inv!("additionalProperties {k2}");
+                                inv!("additionalProperties {k2} > {}", inner_reason);
                             }
                         }
                     }
@@ -757,6 +760,66 @@ impl<'a> Validator<'a> {
                         }
                         if k == "maxProperties" && distinct > lim {
                             inv!("maxProperties");
+                        }
+                    }
+                }
+                "uniqueItems" => {
+                    if let (J::Arr(a), Some(true)) = (inst, v.as_bool()) {
+                        for i in 0..a.len() {
+                            for j in i + 1..a.len() {
+                                if j_equal(&a[i], &a[j]) {
+                                    inv!("uniqueItems");
+                                }
+                            }
+                        }
+                    }
+                }
+                "contains" => {
+                    if let J::Arr(a) = inst {
+                        let mut n = 0u64;
+                        for x in a {
+                            if let Verdict::Valid = self.validate(v, x) {
+                                n += 1;
+                            }
+                        }
+                        let lo = o.get("minContains").and_then(|x| x.as_u64()).unwrap_or(1);
+                        let hi = o.get("maxContains").and_then(|x| x.as_u64()).unwrap_or(u64::MAX);
+                        if n < lo || n > hi {
+                            inv!("contains {n}");
+                        }
+                    }
+                }
+                "minContains" | "maxContains" | "then" | "else" => {}
+                "if" => {
+                    let c = matches!(self.validate(v, inst), Verdict::Valid);
+                    let branch = if c { o.get("then") } else { o.get("else") };
+                    if let Some(b) = branch {
+                        if !sub!(b, inst) {
+                            inv!("if/then/else > {}", inner_reason);
+                        }
+                    }
+                }
+                "propertyNames" => {
+                    if let J::Obj(m) = inst {
+                        for (k2, _) in m {
+                            if !sub!(v, &J::Str(k2.clone())) {
+                                inv!("propertyNames {k2} > {}", inner_reason);
+                            }
+                        }
+                    }
+                }
+                "dependentRequired" => {
+                    if let J::Obj(m) = inst {
+                        for (k2, reqs) in v.as_object().into_iter().flatten() {
+                            if m.iter().any(|(k, _)| k == k2) {
+                                for r in reqs.as_array().into_iter().flatten() {
+                                    if let Some(r) = r.as_str() {
+                                        if !m.iter().any(|(k, _)| k == r) {
+                                            inv!("dependentRequired {k2}->{r}");
+                                        }
+                                    }
+                                }
+                            }
                         }
                     }
                 }
